@@ -522,6 +522,25 @@ def gen(rng, tier):
                 cases.append({"kind": kind, "A": A, "table": table, "trees": trees, "names": 0})
             elif kind == "minimise":
                 A = trim(gen_aut(rng, ar))
+                if len(cases) % 5 == 0:
+                    # partial automata with "diagonal only" rules: leaves x->0, y->1(, z->2), f(q,q)->3 for each leaf
+                    # state q (f(0,1) has no rule), g(3)->4, g(4)->4: the leaf states are only told apart by the
+                    # mixed contexts f(0,1) / f(1,0), which exist for no rule of the table
+                    ar = [0, 0, 0, 2, 1][: rng.choice([5, 5, 4])] if rng.random() < 0.8 else [0, 0, 2, 1]
+                    leaves = [i for i, a in enumerate(ar) if a == 0]
+                    f = ar.index(2)
+                    g = ar.index(1) if 1 in ar else None
+                    nl = len(leaves)
+                    rules = [[l, [], i] for i, l in enumerate(leaves)]
+                    diag = [i for i in range(nl) if i == 0 or rng.random() < 0.8]
+                    rules += [[f, [i, i], nl] for i in diag]
+                    if rng.random() < 0.3 and nl >= 2:
+                        rules.append([f, [0, 1], nl + 1])
+                    fin = [nl]
+                    if g is not None:
+                        rules += [[g, [nl], nl + 1], [g, [nl + 1], nl + 1]]
+                        fin = rng.choice([[nl], [nl, nl + 1], [nl + 1]])
+                    A = trim([rules, fin])
                 trees = gen_trees(rng, ar, [A], tier)
                 cases.append({"kind": kind, "A": A, "trees": trees, "names": names})
             elif kind == "minimise_raw":
